@@ -1,5 +1,6 @@
 import Genshi.Wire
 import Genshi.Model.Exec
+import Genshi.Model.ExecGraph
 namespace Driver.C14
 open Genshi Genshi.Exec Genshi.Sexp
 
@@ -73,7 +74,40 @@ def prefixes (r : Reach) : List Parse → List Reach
   | [] => [r]
   | p :: ps => r :: prefixes (.incl r p) ps
 
+def item? : Sexp → Option Item
+  | .list [.atom "T", i] => i.toNat?.map .text
+  | .list [.atom "E", i] => i.toNat?.map .expr
+  | .list [.atom "C", i, m] => do let i ← i.toNat?; let m ← m.toNat?; pure (.code i m)
+  | .list [.atom "I", n, p, d] => do
+      let n ← n.toNat?; let p ← parse? p; let d ← d.toBool?; pure (.incl n p d)
+  | _ => none
+
+def file? : Sexp → Option (Nat × File)
+  | .list [n, c, .list items] => do
+      let n ← n.toNat?; let c ← cls? c; let items ← items.mapM item?; pure (n, ⟨c, items⟩)
+  | _ => none
+
+def errOut : Option Err → Sexp
+  | none => .atom "ok"
+  | some (.syntax n) => .list [.atom "Syntax", ofNat n]
+  | some (.notFound n) => .list [.atom "notfound", ofNat n]
+  | some .diverge => .atom "diverge"
+  | some .config => .atom "config"
+  | some .unmodelled => .atom "unmodelled"
+
+def natsOut (xs : List Nat) : Sexp := .list (xs.map ofNat)
+
 def handle : List Sexp → Option Sexp
+  | [.atom "render", t, l, o, ar, root, .list files, rootName, .list history] => do
+      let cfg ← cfg? t l o ar
+      let root ← root? root
+      let fs ← files.mapM file?
+      let rootName ← rootName.toNat?
+      let history ← history.mapM Sexp.toNat?
+      let fuel := fs.length + 3
+      let r := run fuel fuel cfg root fs rootName history
+      if r.err == some .unmodelled then pure (.atom "unmodelled") else
+      pure (.list [errOut r.err, natsOut r.sentinel, natsOut r.out, .list (r.history.map errOut)])
   | [.atom "reach", t, l, o, ar, root, .list chain] => do
       let cfg ← cfg? t l o ar
       let root ← root? root
